@@ -4,6 +4,7 @@
 package main
 
 import (
+	"errors"
 	"fmt"
 	"math/big"
 	"strconv"
@@ -242,6 +243,42 @@ func parseRkm(w []string) *rkCase {
 	return c
 }
 
+// queryKey / batchKey: a fresh Query / Batch of the public API; the error is classified here (ErrNoMetadata -> meta, a key
+// marker without bound value -> values (KF-C09-1 repaired), anything else is what Marshal returned -> marshal)
+func rkErrClass(err error) string {
+	switch {
+	case err == nil:
+		return ""
+	case errors.Is(err, gocql.ErrNoMetadata):
+		return "meta"
+	case strings.Contains(err.Error(), "has no bound value"):
+		return "values"
+	}
+	return "marshal"
+}
+
+func queryKey(s *gocql.Session, stmt string, vals []interface{}) (key []byte, keyspace, table, errClass string) {
+	q := s.Query(stmt, vals...)
+	k, err := q.GetRoutingKey()
+	if err != nil {
+		return nil, "", "", rkErrClass(err)
+	}
+	return k, q.Keyspace(), q.Table(), ""
+}
+
+func batchKey(s *gocql.Session, stmt string, vals []interface{}, stmt2 string, vals2 []interface{}) (key []byte, errClass string) {
+	b := s.NewBatch(gocql.LoggedBatch)
+	b.Query(stmt, vals...)
+	if stmt2 != "" {
+		b.Query(stmt2, vals2...)
+	}
+	k, err := b.GetRoutingKey()
+	if err != nil {
+		return nil, rkErrClass(err)
+	}
+	return k, ""
+}
+
 const rkStmt = "UPDATE ks.tbl SET verif = ? WHERE verif = ?"
 
 // the second entry of a `bx` batch: another prepared statement on another table, key = its only marker (int)
@@ -284,7 +321,7 @@ func (c *rkCase) run() string {
 				vals[i] = c.pl.value(i+1, v.Build())
 			}
 			if c.kind == "q" {
-				k, ks, tbl, ec := gocql.VerifC09QueryKey(s, rkStmt, vals)
+				k, ks, tbl, ec := queryKey(s, rkStmt, vals)
 				switch {
 				case ec != "":
 					return "err:" + ec
@@ -297,7 +334,7 @@ func (c *rkCase) run() string {
 			if c.kind == "bx" {
 				stmt2, vals2 = rkStmt2, []interface{}{0x5eed0000 + ri}
 			}
-			k, ec := gocql.VerifC09BatchKey(s, rkStmt, vals, stmt2, vals2)
+			k, ec := batchKey(s, rkStmt, vals, stmt2, vals2)
 			switch {
 			case ec != "":
 				return "err:" + ec
@@ -515,11 +552,21 @@ func genRkm(r *vh.Rng, g *valgen.Gen) (c *rkCase, specBacked bool, class string)
 			}
 		}
 		for _, row := range c.rows {
+			short := false
 			for _, mi := range markers {
 				if mi >= len(row) {
-					specBacked, out = false, "arity"
-					continue
+					short = true
 				}
+			}
+			if short {
+				// a key marker without a bound value: the error outcome, whatever the other values are (KF-C09-1
+				// repaired; theorem C09_routing_short_values) - spec-backed
+				if out == "key" {
+					out = "values"
+				}
+				continue
+			}
+			for _, mi := range markers {
 				if _, st := valgen.Marshal(c.proto, c.cols[mi].ty, row[mi]); st != "ok" {
 					specBacked, out = false, "comp-"+st
 				}
